@@ -108,7 +108,21 @@ def step (s : St) (ws : List String) : St × List String :=
     | some bytes =>
       -- where do the bytes live?
       let place : Option (World × Slice × Method × Option Anchor) :=
-        if m = "a" then
+        if m = "f" then
+          -- anchored input from a FOREIGN arena (detached arena a0 of the world, created on demand)
+          if bytes.isEmpty then some (w, ⟨.ext 0, 0, 0⟩, .borrow, none) else
+          let w0 := if w.arenas.isEmpty then (w.addArena ⟨none⟩).1 else w
+          match w0.arenas.getD 0 none with
+          | some ar =>
+            if bytes.isEmpty then some (w0, ⟨.ext 0, 0, 0⟩, .borrow, none)
+            else
+              let (w1, ar', res, _) := w0.readN ar ⟨bytes, [.deliver bytes.length]⟩ bytes.length 4
+              let w2 := { w1 with arenas := listSet w1.arenas 0 (some ar') none }
+              match res with
+              | .ok a => some (w2, a.slice, .borrow, some a.anchor)
+              | .error _ => none
+          | none => none
+        else if m = "a" then
           match w.iov 0 with
           | some v =>
             if bytes.isEmpty then some (w, ⟨.ext 0, 0, 0⟩, .borrow, none)
@@ -181,6 +195,10 @@ def step (s : St) (ws : List String) : St × List String :=
           | none => panic s
         | _ => (s, ["bad-op"])
     | _, _, _, _, _ => (s, ["bad-op"])
+  | ["foreign_flush"] =>
+    match w.arenas.getD 0 none with
+    | some ar => fin s { w with arenas := listSet w.arenas 0 (some (flush ar)) none } s.codec
+    | none => fin s w s.codec
   | ["arena_flush"] =>
     match w.iov 0 with
     | some v => fin s (w.setIov 0 (some { v with arena := flush v.arena })) s.codec
